@@ -47,10 +47,10 @@ FLOORS = {
                       "abscissae_recorded": 5000, "veff_calls": 40},
               "cls": {"deriv:L2": 20, "deriv:U2": 20, "deriv:L1": 10, "deriv:U1": 10,
                       "deriv:interior": 20, "deriv:onLower": 10, "deriv:onUpper": 10}},
-    "thorough": {"distinct_nontrivial": 3000,
-                 "mon": {"derivative_calls": 8000, "gradient_calls": 1500,
-                         "hessian_calls": 1500, "abscissae_recorded": 100000,
-                         "veff_calls": 400}},
+    "thorough": {"distinct_nontrivial": 10000,
+                 "mon": {"derivative_calls": 100000, "gradient_calls": 15000,
+                         "hessian_calls": 10000, "abscissae_recorded": 5000000,
+                         "veff_calls": 50000}},
 }
 
 EPS = np.finfo(float).eps
@@ -85,7 +85,8 @@ def generate(tier, seed):
                 for shape in ("scalar", "1d", "2d"):
                     dxs = [("pow2", float(2.0 ** int(m))) for m in
                            rng.choice(np.arange(-12, 6), size=min(nrand, 18), replace=False)]
-                    dxs += [("pow10", float(10 ** rng.uniform(-8, 2))) for _ in range(nrand)]
+                    dxs += [("pow10", float(10 ** rng.uniform(-8, 2)))
+                            for _ in range(nrand if tier == "quick" else 5 * nrand)]
                     if pl == "none":
                         dxs.append(("default", None))
                     for dxc, dx in dxs:
@@ -109,7 +110,7 @@ def generate(tier, seed):
         for nv in (1, 2, 3):
             for expo in itertools.product(range(HESS_DEG[order] + 1), repeat=nv):
                 tot = sum(expo)
-                reps = 1 if tier == "quick" else 20
+                reps = 1 if tier == "quick" else 150
                 for r_ in range(4 * reps):
                     if tot <= GRAD_DEG[order]:
                         cases.append({"kind": "grad", "order": order, "nv": nv,
@@ -122,7 +123,7 @@ def generate(tier, seed):
                         cases.append({"kind": "hess", "order": order, "nv": nv,
                                       "expo": list(expo), "s": int(rng.integers(1 << 30))})
     # --- EffectivePotential wrappers
-    for i in range(60 if tier == "quick" else 3000):
+    for i in range(60 if tier == "quick" else 30000):
         cases.append({"kind": "veff", "nf": int(rng.integers(1, 4)),
                       "s": int(rng.integers(1 << 30)),
                       "nearZero": bool(i % 2 == 0)})
@@ -519,6 +520,12 @@ def _case_veff(case):
         mon["veff_calls"] += 1
         got = np.asarray(got, dtype=float)
         exact = np.asarray(exact, dtype=float)
+        if exact.ndim == 0:
+            # closed form is identically constant (no dependence on that variable): the
+            # helper must still return one value per point
+            exact = np.full((npts,) + got.shape[1:], float(exact))
+            if got.ndim == 0 and npts == 1:
+                exact = exact.reshape(())
         if got.shape != exact.shape:
             try:
                 got2 = got.reshape(exact.shape)
